@@ -67,6 +67,12 @@ def bytes_bools_prog():
         decl('bool', 't', bin_('>', V('g1'), I(0))),
         write(V('t')), writeln(('un', 'not', V('t'))), writeln(),
         for_up('j', I(0), I(256), writeln(is_(V('j'), 'byte'))),
+        # bools produced by a cast right inside the call (no variable in between): multiples of 64 up to 1216,
+        # their low bytes, and negative multiples of 256
+        for_up('k', I(0), I(20),
+               write(is_(bin_('*', V('k'), I(64)), 'bool')), write(C(',')),
+               write(is_(is_(bin_('*', V('k'), I(64)), 'byte'), 'bool')), write(C(',')),
+               writeln(is_(bin_('-', I(0), bin_('*', V('k'), I(256))), 'bool'))),
         ex(call('dump', V('nb'))),
     ]
     tables = [decl(arr('byte', True), 'allc', ('arr', tuple(C(v) for v in range(256))), True),
